@@ -66,12 +66,27 @@ class StepModel:
         ]
         self.entry_calls = []
         self.tree = set()
+        self.helpers = {}  # helper fq (same module as the dispatch) -> {param: set(fq passed)}
         for st in if_node.body:
             for n in ast.walk(st):
                 if isinstance(n, ast.Call):
                     for fq in ctx.cg.resolve_callee(dispatch_func, n.func):
                         self.entry_calls.append((n, fq))
                         self.tree |= ctx.cg.reachable(fq)
+                        callee = ctx.cg.func(fq)
+                        if callee.module is dispatch_func.module:
+                            binds = self.helpers.setdefault(fq, {})
+                            params = callee.params
+                            pairs = [(params[i], a) for i, a in enumerate(n.args) if i < len(params)]
+                            pairs += [(k.arg, k.value) for k in n.keywords if k.arg in params]
+                            for pname, a in pairs:
+                                if isinstance(a, (ast.Name, ast.Attribute)):
+                                    for t in ctx.cg.resolve_callee(dispatch_func, a):
+                                        binds.setdefault(pname, set()).add(t)
+                                        self.entry_calls.append((n, t))
+                                        self.tree |= ctx.cg.reachable(t)
+        # extra call edges of this step: helper -> functions passed to it as arguments
+        self.extra_edges = {h: set().union(*b.values()) if b else set() for h, b in self.helpers.items()}
 
 
 def _is_connect_call(f, call):
@@ -114,8 +129,9 @@ def _write_kind(ctx, call):
     return None
 
 
-def summaries(ctx, funcs):
+def summaries(ctx, funcs, extra_edges=None):
     """fq -> (writes?, boundary?) transitively."""
+    extra_edges = extra_edges or {}
     direct = {}
     for fq in funcs:
         f = ctx.cg.func(fq)
@@ -130,7 +146,7 @@ def summaries(ctx, funcs):
     while changed:
         changed = False
         for fq in funcs:
-            for c in ctx.cg.edges.get(fq, ()):
+            for c in set(ctx.cg.edges.get(fq, ())) | set(extra_edges.get(fq, ())):
                 if c in direct:
                     for i in (0, 1):
                         if direct[c][i] and not direct[fq][i]:
@@ -139,8 +155,9 @@ def summaries(ctx, funcs):
     return {k: tuple(v) for k, v in direct.items()}
 
 
-def classify_nodes(ctx, f, summ):
-    """For function f: CFG node -> {'w': [...], 'b': [...]} descriptions."""
+def classify_nodes(ctx, f, summ, param_targets=None):
+    """For function f: CFG node -> {'w': [...], 'b': [...]} descriptions.
+    param_targets: {param name: set(fq)} for calls of a parameter of f."""
     flow = Flow.of(f)
     cfg = flow.cfg
     marks = {}
@@ -148,6 +165,8 @@ def classify_nodes(ctx, f, summ):
         n = cfg.node_containing(call)
         if n is None:
             continue
+        if param_targets and isinstance(call.func, ast.Name) and call.func.id in param_targets:
+            targets = list(targets) + sorted(param_targets[call.func.id])
         w = _write_kind(ctx, call)
         b = _boundary_kind(ctx, f, call)
         for t in targets:
@@ -196,12 +215,19 @@ def run(ctx, chk, tier="quick"):
             n for st in sm.if_node.body for n in ast.walk(st)
             if isinstance(n, ast.Call) and _is_connect_call(dispatch, n)
         ]
+        conn_owner = {id(c): dispatch for c in conn_calls}
+        for h in sorted(sm.helpers):
+            hf = ctx.cg.func(h)
+            for n in ast.walk(hf.node):
+                if isinstance(n, ast.Call) and _is_connect_call(hf, n):
+                    conn_calls.append(n)
+                    conn_owner[id(n)] = hf
         all_connects += len(conn_calls)
         if not conn_calls:
             chk.indeterminate("C20.O1", where_of(dispatch, sm.if_node),
                               "no sqlite3.connect in dispatch of %r" % name)
             continue
-        chk.ob("C20.O4", len(conn_calls) == 1, where_of(dispatch, conn_calls[0]),
+        chk.ob("C20.O4", len(conn_calls) == 1, where_of(conn_owner[id(conn_calls[0])], conn_calls[0]),
                "%d sqlite3.connect call(s) in dispatch of %s" % (len(conn_calls), name),
                "exactly one connection per step", key="dispatch|%s|connect-count" % name,
                why="two connections split the step into two transactions")
@@ -222,7 +248,7 @@ def run(ctx, chk, tier="quick"):
                     bad.append("**%s" % ast.unparse(kw.value))
             if len(c.args) > 3:
                 bad.append("positional isolation_level")
-            chk.ob("C20.O1", not bad, where_of(dispatch, c),
+            chk.ob("C20.O1", not bad, where_of(conn_owner[id(c)], c),
                    "sqlite3.connect(%s)" % ", ".join(bad) if bad else "sqlite3.connect with default transaction control",
                    "connection keeps implicit transactions (no isolation_level=None / autocommit=True)",
                    key="dispatch|%s|connect-mode" % name,
@@ -233,13 +259,13 @@ def run(ctx, chk, tier="quick"):
             continue
 
         funcs = sorted(sm.tree)
-        summ = summaries(ctx, funcs)
+        summ = summaries(ctx, funcs, sm.extra_edges)
         # ---- O2 inside the dispatch function and inside every function of the tree
         n_writes = 0
         n_bounds = 0
         scope_funcs = [dispatch] + [ctx.cg.func(fq) for fq in funcs]
         for f in scope_funcs:
-            flow, marks = classify_nodes(ctx, f, summ)
+            flow, marks = classify_nodes(ctx, f, summ, sm.helpers.get(f.fq))
             cfg = flow.cfg
             if f is dispatch:
                 # restrict to nodes of this step's branch
@@ -322,7 +348,7 @@ def run(ctx, chk, tier="quick"):
         for fq in funcs:
             f = ctx.cg.func(fq)
             for n in ast.walk(f.node):
-                if isinstance(n, ast.Call) and _is_connect_call(f, n):
+                if isinstance(n, ast.Call) and _is_connect_call(f, n) and id(n) not in conn_owner:
                     chk.ob("C20.O4", False, where_of(f, n), "sqlite3.connect inside step %s" % name,
                            "a step uses only the connection handed in by the dispatch",
                            key="%s|%s|connect" % (f.module.relpath, f.qualname),
